@@ -404,6 +404,12 @@ def header_cases(task, tier, seed=0):
                     yield {'timestamp': A.dt(t)}, t, 3
         for n in range(0, 200):
             yield {'headers': {'k%03d' % i: 'v' * i for i in range(n)}}, n, 4
+        # content headers larger than the default maximum frame size (a
+        # larger frame-max can be negotiated)
+        for n in (131000, 131073, 200000):
+            yield {'headers': {'blob': 'v' * n}}, n, 5
+            yield {'headers': {'k': ['v' * (n // 2), bytearray(n // 2)]},
+                   'app_id': 'big'}, n, 5
     elif kind == 'alts':
         idx = task[1]
         name, wire_type, _b = SETTABLE[idx]
@@ -617,13 +623,25 @@ def dense_cases(task, tier):
     elif kind == 'longstr':
         m = M['Connection.SecureOk']
         lengths = list(range(0, 1100)) + _around(
-            [2**k for k in range(11, 18)], 12) + [100000]
+            [2**k for k in range(11, 18)], 12) + [100000, 131064, 131072,
+                                                  131073, 150000, 300000]
         if thorough:
             lengths += list(range(1100, 9000, 7))
         for n in lengths:
             yield m, ('s' * n,), 1
         for n in list(range(0, 300)):
             yield m, ('é' * n,), 1
+        # alignment sweep: multi-byte characters at every byte alignment,
+        # in strings that cross the usual block sizes (4 KiB, 8 KiB, 64 KiB)
+        for ch_, width in (('é', 2), ('€', 3), ('\U0001F600', 4)):
+            for prefix in range(0, width + 1):
+                for total in (4096, 8192, 65536):
+                    k = total // width + 8
+                    yield m, ('x' * prefix + ch_ * k,), 1
+                    yield m, ('x' * prefix + ch_ * (k // 2) + 'tail',), 1
+        for prefix in range(4080, 4100):
+            yield m, ('a' * prefix + '\U0001F600' + 'z' * 20,), 1
+            yield m, ('a' * prefix + '€é' + 'z' * 20,), 1
     elif kind == 'table-count':
         m = M['Queue.Declare']
         top = 1200 if thorough else 400
@@ -638,6 +656,15 @@ def dense_cases(task, tier):
         for n in range(0, 129):
             yield m, (0, 'q', False, False, False, False, False,
                       {'k' * n: n, 'é' * (n // 2): None}), 1
+        for n in (131073, 200000):
+            yield m, (0, 'q', False, False, False, False, False,
+                      {'blob': 'v' * n}), 1
+        for ch_, width in (('é', 2), ('€', 3), ('\U0001F600', 4)):
+            for prefix in range(0, width + 1):
+                k = 4096 // width + 8
+                yield m, (0, 'q', False, False, False, False, False,
+                          {'s': 'x' * prefix + ch_ * k,
+                           'a': ['y' * prefix + ch_ * k]}), 1
     elif kind == 'array-count':
         m = M['Queue.Declare']
         top = 1200 if thorough else 400
